@@ -54,7 +54,8 @@ EmitFixed == Kind = "fixed" => PrintT(<<"CASE", ToJson(
 EmitFast == (Kind = "fast" /\ (IsPow2(SumSeq(seq)) \/ ~AcceptFast(seq, P))) => PrintT(<<"CASE", ToJson(
     [k |-> "fast", B |-> B, P |-> P, weights |-> seq,
      accept |-> AcceptFast(seq, P), table |-> IF AcceptFast(seq, P) THEN Rows(FastTable(seq, P)) ELSE <<>>])>>)
-EmitLeaky == (Kind = "leaky" /\ Len(seq) >= 1) => PrintT(<<"CASE", ToJson(
+\* Len(seq) = 0 is a support of ONE symbol, which must be refused
+EmitLeaky == (Kind = "leaky" /\ Len(seq) >= 0) => PrintT(<<"CASE", ToJson(
     [k |-> "leaky", B |-> B, P |-> P, K |-> seq, m |-> BitLen(MaxVal) - 1, n |-> Len(seq) + 1,
      accept |-> AcceptLeaky(Len(seq) + 1, P),
      table |-> IF AcceptLeaky(Len(seq) + 1, P) THEN Rows(LeakyTable(seq, BitLen(MaxVal) - 1, Len(seq) + 1, 0, P)) ELSE <<>>])>>)
